@@ -2,12 +2,13 @@ from checklib.registry import generic, COMMON_NOTE
 from checklib import steps
 
 def _pregen(work):
-    errs = [e for e in (steps.pregen_slice(work), steps.pregen_linkedlistgo(work)) if e]
+    errs = [e for e in (steps.pregen_slice(work), steps.pregen_linkedlistgo(work), steps.pregen_slicego(work)) if e]
     return "; ".join(errs) if errs else None
 
 
 CHECK = generic("C04", [dict(harness="lists", area="lists"),
-                        dict(harness="lists", area="llptr", name="lists-llptr")], pregen=_pregen)
+                        dict(harness="lists", area="llptr", name="lists-llptr"),
+                        dict(harness="lists", area="slptr", name="lists-slptr")], pregen=_pregen)
 
 MANIFEST = dict(
     text=("Theorems in Lean 4 (Ekit/Props/C04.lean): every call on the ArrayList / LinkedList / CopyOnWriteArrayList models "
